@@ -55,14 +55,17 @@ Record gptr := mkG { gself : addr; gp : option nat }.
     private pointer [t]. *)
 Record uptr := mkU { ugp : gptr; uclr : option nat }.
 
-Inductive kind := KU | KS | KW | KA.
+Inductive kind := KU | KS | KW | KA | KG.
 Definition kind_eqb (a b : kind) : bool :=
-  match a, b with KU, KU | KS, KS | KW, KW | KA, KA => true | _, _ => false end.
+  match a, b with KU, KU | KS, KS | KW, KW | KA, KA | KG, KG => true | _, _ => false end.
 
 (** One pool slot.  All kinds share one record (the unused fields keep
     their initial value): [KU] cstl_unique_ptr_t = {gp, clr};
     [KS]/[KW] cstl_shared_ptr_t / cstl_weak_ptr_t = {gp};
-    [KA] cstl_array_t = {ptr = {gp}, off, len}. *)
+    [KA] cstl_array_t = {ptr = {gp}, off, len};
+    [KG] struct cstl_guarded_ptr used directly as an object = {gp}: the
+    stored pointer is an arbitrary value of the caller ([Some v], [None] =
+    NULL) which the library never dereferences and never owns. *)
 Record obj := mkO { okind : kind; ogp : gptr; oclr : option nat; ooff : N; olen : N }.
 
 (** struct cstl_shared_ptr_data *)
@@ -304,7 +307,8 @@ Section WithOracle.
       Ok (wr_data s2 d (mkD (hard D + 1) (soft D + 1) (dup D)))
     end.
 
-  (** cstl_guarded_ptr_swap on two pool slots (shared_ptr_swap, weak_ptr_swap) *)
+  (** cstl_guarded_ptr_swap on two pool slots (shared_ptr_swap, weak_ptr_swap,
+      and the guarded pointer objects themselves) *)
   Definition gp_swap (s : st) (a b : nat) : res st :=
     ga <- rd_gp s a;;
     t <- gget (ASlot a) ga;;
@@ -351,6 +355,29 @@ Section WithOracle.
         Ok (wr_gp s4 sp (mkG (ASlot sp) None))
     end.
 
+  (** ** Guarded pointers used directly as objects (pool slots of kind KG) *)
+  (** cstl_guarded_ptr_set: [gp->ptr = ptr; gp->self = gp], whatever the
+      object held before (no guarded read) *)
+  Definition guarded_set (s : st) (i : nat) (p : option nat) : st := wr_gp s i (mkG (ASlot i) p).
+
+  (** cstl_guarded_ptr_init: cstl_guarded_ptr_set(gp, NULL) *)
+  Definition guarded_init (s : st) (i : nat) : st := guarded_set s i None.
+
+  (** cstl_guarded_ptr_get_const: abort unless [gp->self == gp] *)
+  Definition guarded_get_const (s : st) (i : nat) : res (option nat) :=
+    g <- rd_gp s i;; gget (ASlot i) g.
+
+  (** cstl_guarded_ptr_get: a cast around cstl_guarded_ptr_get_const *)
+  Definition guarded_get (s : st) (i : nat) : res (option nat) := guarded_get_const s i.
+
+  (** cstl_guarded_ptr_copy(dst, src): guarded read of the source, then the
+      destination is overwritten and stamped with its own address *)
+  Definition guarded_copy (s : st) (dst src : nat) : res st :=
+    p <- guarded_get_const s src;; Ok (guarded_set s dst p).
+
+  (** cstl_guarded_ptr_swap(a, b) is [gp_swap] above: t = get(a);
+      set(a, get(b)); set(b, t) *)
+
   (** cstl_shared_ptr_init, cstl_weak_ptr_init, cstl_array_init: no guarded read *)
   Definition obj_reinit (s : st) (i : nat) : st :=
     match nth_error (objs s) i with
@@ -373,7 +400,9 @@ Inductive mop :=
 | SInit (s : nat) | SAlloc (s : nat) (sz : N) (cb : bool) | SGet (s : nat) | SUnique (s : nat)
 | SShare (e n : nat) | SSwap (a b : nat) | SReset (s : nat)
 | WInit (w : nat) | WFrom (w s : nat) | WLock (w s : nat) | WSwap (a b : nat) | WReset (w : nat)
-| StrayCopy (src dst : nat).
+| StrayCopy (src dst : nat)
+| GInit (g : nat) | GSet (g : nat) (p : option nat) | GGet (g : nat) | GGetC (g : nat)
+| GCopy (dst src : nat) | GSwap (a b : nat).
 
 Definition kind_at (s : st) (i : nat) : option kind := option_map okind (nth_error (objs s) i).
 Definition has_kind (s : st) (i : nat) (k : kind) : bool :=
@@ -394,9 +423,10 @@ Definition disposable (s : st) (i : nat) : bool :=
   negb (wfb s i) || match ptr_at s i with None => true | Some _ => false end.
 
 (** Domain of the scripted calls: slots exist and have the C type the
-    function takes; *_init and StrayCopy only overwrite disposable objects;
-    a stray copy never lands on the address stored in it; swapping a unique
-    pointer with itself (memcpy on identical ranges) is excluded. *)
+    function takes; *_init and StrayCopy only overwrite disposable objects
+    (a guarded pointer object owns nothing and may be overwritten in any
+    state); a stray copy never lands on the address stored in it; swapping a
+    unique pointer with itself (memcpy on identical ranges) is excluded. *)
 Definition mdom (s : st) (o : mop) : bool :=
   match o with
   | UInit u => has_kind s u KU && disposable s u
@@ -414,9 +444,12 @@ Definition mdom (s : st) (o : mop) : bool :=
     negb (Nat.eqb src dst) &&
     match nth_error (objs s) src, nth_error (objs s) dst with
     | Some o, Some o' =>
-      kind_eqb (okind o) (okind o') && disposable s dst && negb (addr_eqb (gself (ogp o)) (ASlot dst))
+      kind_eqb (okind o) (okind o') && (kind_eqb (okind o') KG || disposable s dst) &&
+      negb (addr_eqb (gself (ogp o)) (ASlot dst))
     | _, _ => false
     end
+  | GInit g | GSet g _ | GGet g | GGetC g => has_kind s g KG
+  | GCopy a b | GSwap a b => has_kind s a KG && has_kind s b KG
   end.
 
 Definition of_res {A} (r : res A) (f : A -> outcome st) : outcome st :=
@@ -451,6 +484,12 @@ Section Step.
     | WLock w x => of_res (weak_lock s w x) (fun s' => Done s' [])
     | WReset w => of_res (weak_reset s w) (fun s' => Done s' [])
     | StrayCopy src dst => Done (stray_copy s src dst) []
+    | GInit g => Done (guarded_init s g) []
+    | GSet g p => Done (guarded_set s g p) []
+    | GGet g => of_res (guarded_get s g) (fun p => Done s [zopt p])
+    | GGetC g => of_res (guarded_get_const s g) (fun p => Done s [zopt p])
+    | GCopy dst src => of_res (guarded_copy s dst src) (fun s' => Done s' [])
+    | GSwap a b => of_res (gp_swap s a b) (fun s' => Done s' [])
     end.
 
   Definition mstep (s : st) (o : mop) : outcome st :=
